@@ -52,4 +52,209 @@ theorem shadow_ne (n : String) : n ++ "_" ≠ n := by
 theorem shadow_inj (a b : String) (h : a ++ "_" = b ++ "_") : a = b :=
   (String.append_left_inj "_").mp h
 
+
+variable (E : Env)
+
+/-- Every declared trait is one whose validators are proved sound. -/
+def ClassClean (cls : ClassDef) : Prop := ∀ n tt, traitOf cls n = some tt → tt.soundClean = true
+
+/-- The shadow name of a mapped trait is not itself a declared trait. -/
+def NoShadowClash (cls : ClassDef) : Prop :=
+  ∀ n tt, traitOf cls n = some tt → isMapped tt = true → traitOf cls (n ++ "_") = none
+
+/-- Map and value lists of the mapped traits have matching lengths. -/
+def mapWF : TraitType → Bool
+  | .map keys vals => decide (keys.length ≤ vals.length)
+  | .mapH keys vals => decide (keys.length ≤ vals.length)
+  | .prefixMap keys vals => decide (keys.length ≤ vals.length)
+  | _ => true
+
+def ClassWF (cls : ClassDef) : Prop := ∀ n tt, traitOf cls n = some tt → mapWF tt = true
+
+/-- Everything stored under a declared name lies in that trait's domain. -/
+def Readable (cls : ClassDef) (st : State) : Prop :=
+  ∀ n tt w, traitOf cls n = some tt → lookup st n = some w → inDomain E tt w = true
+
+/-- The shadow attribute of every mapped trait holds `map[value]`. -/
+def ShadowOK (cls : ClassDef) (st : State) : Prop :=
+  ∀ n tt w, traitOf cls n = some tt → isMapped tt = true → lookup st n = some w →
+    ∃ s, mappedValue tt w = some s ∧ lookup st (n ++ "_") = some s
+
+theorem dictFind_lt (keys : List Val) (v : Val) (i : Nat) (h : dictFind keys v = .ok (some i)) :
+    i < keys.length := by
+  unfold dictFind at h
+  by_cases hh : v.hashable = true
+  · simp [hh] at h
+    exact (List.findIdx?_eq_some_iff_getElem.mp h).1
+  · simp [hh] at h
+
+/-- A validated value of a mapped trait has a mapped value. -/
+theorem mapped_some (tt : TraitType) (v w : Val) (hm : isMapped tt = true) (hwf : mapWF tt = true)
+    (h : validate E tt v = .ok w) : ∃ s, mappedValue tt w = some s := by
+  cases tt <;> simp [isMapped] at hm
+  case map keys vals =>
+    simp [validate, ctraitValidate, ctraitValidateWith, descOf] at h
+    obtain ⟨⟨i, hi⟩, rfl⟩ := fast_map_ok E _ v w h
+    have hl := dictFind_lt keys _ i hi
+    simp only [mapWF, decide_eq_true_eq] at hwf
+    have : i < vals.length := by omega
+    exact ⟨vals[i], by simp [mappedValue, hi, this]⟩
+  case mapH keys vals =>
+    simp [validate, ctraitValidate, ctraitValidateWith, descOf] at h
+    obtain ⟨⟨i, hi⟩, rfl⟩ := fast_map_ok E _ v w h
+    have hl := dictFind_lt keys _ i hi
+    simp only [mapWF, decide_eq_true_eq] at hwf
+    have : i < vals.length := by omega
+    exact ⟨vals[i], by simp [mappedValue, hi, this]⟩
+  case prefixMap keys vals =>
+    simp [validate, ctraitValidate, ctraitValidateWith, descOf, hasPy] at h
+    obtain ⟨hd, _⟩ := py_prefixMap_ok E keys vals v w h
+    simp only [inDomain] at hd
+    cases hs : strOf w with
+    | none => simp [hs] at hd
+    | some s =>
+      simp only [hs] at hd
+      have hmem : s ∈ keys := by simpa using hd
+      obtain ⟨i, hi, hget⟩ := List.getElem_of_mem hmem
+      have hsome : (keys.findIdx? (· == s)).isSome := by
+        rw [List.findIdx?_isSome]
+        simp only [List.any_eq_true]
+        exact ⟨s, hmem, by simp⟩
+      obtain ⟨j, hj⟩ := Option.isSome_iff_exists.mp hsome
+      have hjl := (List.findIdx?_eq_some_iff_getElem.mp hj).1
+      simp only [mapWF, decide_eq_true_eq] at hwf
+      have : j < vals.length := by omega
+      exact ⟨vals[j], by simp [mappedValue, hs, hj, this]⟩
+
+
+/-- The three possible shapes of a step on a declared trait. -/
+theorem step_cases (cls : ClassDef) (st : State) (name : String) (v : Val) (tt : TraitType)
+    (ht : traitOf cls name = some tt) :
+    (∃ e, validate E tt v ≠ .ok v ∧ (∀ w, validate E tt v ≠ .ok w) ∧ step E cls st name v = (st, some e)) ∨
+    (∃ w, validate E tt v = .ok w ∧
+      ((isMapped tt = false ∧ step E cls st name v = (store st name w, none)) ∨
+       (isMapped tt = true ∧ lookup st name = some w ∧ step E cls st name v = (store st name w, none)) ∨
+       (isMapped tt = true ∧ lookup st name ≠ some w ∧ ∃ s, mappedValue tt w = some s ∧
+          step E cls st name v = (store (store st name w) (name ++ "_") s, none)) ∨
+       (isMapped tt = true ∧ mappedValue tt w = none ∧ step E cls st name v = (store st name w, some .keyError)))) := by
+  simp only [step, ht]
+  cases hv : validate E tt v with
+  | traitError => exact Or.inl ⟨.traitError, by simp, by simp, rfl⟩
+  | raised e => exact Or.inl ⟨e, by simp, by simp, rfl⟩
+  | ok w =>
+    refine Or.inr ⟨w, rfl, ?_⟩
+    by_cases hm : isMapped tt = true
+    · simp only [hm, if_true]
+      by_cases hl : lookup st name = some w
+      · simp [hl]
+      · have : (lookup st name == some w) = false := by simpa using hl
+        simp only [this, Bool.false_eq_true, if_false]
+        cases hmv : mappedValue tt w with
+        | none => simp [hl]
+        | some s => simp [hl]
+    · simp [hm]
+
+theorem readable_step (hE : EnvOK E) (cls : ClassDef) (hc : ClassClean cls) (hs : NoShadowClash cls)
+    (st : State) (name : String) (v : Val) (hr : Readable E cls st) :
+    Readable E cls (step E cls st name v).1 := by
+  cases ht : traitOf cls name with
+  | none =>
+    simp only [step, ht]
+    intro n tt w hn hl
+    have hne : n ≠ name := by intro h; subst h; simp [ht] at hn
+    rw [lookup_store_other _ _ _ _ hne] at hl
+    exact hr n tt w hn hl
+  | some tt =>
+    have hsound := (soundP_all E hE tt).2.1 (hc name tt ht)
+    have key : ∀ w, validate E tt v = .ok w → Readable E cls (store st name w) := by
+      intro w hv n tt' w' hn hl
+      by_cases hne : n = name
+      · subst hne
+        rw [lookup_store_same] at hl; cases hl
+        rw [ht] at hn; cases hn
+        exact (hsound v w' hv).1
+      · rw [lookup_store_other _ _ _ _ hne] at hl
+        exact hr n tt' w' hn hl
+    rcases step_cases E cls st name v tt ht with ⟨e, _, _, h⟩ | ⟨w, hv, h⟩
+    · rw [h]; exact hr
+    · rcases h with ⟨_, h⟩ | ⟨_, _, h⟩ | ⟨hm, _, s, _, h⟩ | ⟨_, _, h⟩
+      · rw [h]; exact key w hv
+      · rw [h]; exact key w hv
+      · rw [h]
+        intro n tt' w' hn hl
+        have hne : n ≠ name ++ "_" := by
+          intro heq; subst heq
+          rw [hs name tt ht hm] at hn; cases hn
+        rw [lookup_store_other _ _ _ _ hne] at hl
+        exact key w hv n tt' w' hn hl
+      · rw [h]; exact key w hv
+
+theorem readable_run (hE : EnvOK E) (cls : ClassDef) (hc : ClassClean cls) (hs : NoShadowClash cls)
+    (ops : List (String × Val)) (st : State) (hr : Readable E cls st) : Readable E cls (run E cls st ops) := by
+  induction ops generalizing st with
+  | nil => simpa [run] using hr
+  | cons op ops ih =>
+    simp only [run]
+    exact ih _ (readable_step E hE cls hc hs st op.1 op.2 hr)
+
+theorem shadow_step (cls : ClassDef) (hw : ClassWF cls) (hs : NoShadowClash cls)
+    (st : State) (name : String) (v : Val) (hd : (traitOf cls name).isSome = true)
+    (hr : ShadowOK cls st) : ShadowOK cls (step E cls st name v).1 := by
+  obtain ⟨tt, ht⟩ := Option.isSome_iff_exists.mp hd
+  -- lookups of another mapped trait and of its shadow are not disturbed by a write to `name`
+  have other : ∀ w, ∀ n tt' w', traitOf cls n = some tt' → isMapped tt' = true → n ≠ name →
+      lookup (store st name w) n = some w' →
+      ∃ s, mappedValue tt' w' = some s ∧ lookup (store st name w) (n ++ "_") = some s := by
+    intro w n tt' w' hn hm hne hl
+    rw [lookup_store_other _ _ _ _ hne] at hl
+    obtain ⟨s, h1, h2⟩ := hr n tt' w' hn hm hl
+    have hne2 : n ++ "_" ≠ name := by
+      intro heq
+      have := hs n tt' hn hm
+      rw [heq, ht] at this; cases this
+    exact ⟨s, h1, by rw [lookup_store_other _ _ _ _ hne2]; exact h2⟩
+  rcases step_cases E cls st name v tt ht with ⟨e, _, _, h⟩ | ⟨w, hv, h⟩
+  · rw [h]; exact hr
+  · rcases h with ⟨hnm, h⟩ | ⟨hm, hl0, h⟩ | ⟨hm, _, s, hmv, h⟩ | ⟨hm, hmv, h⟩
+    · rw [h]
+      intro n tt' w' hn hm' hl
+      have hne : n ≠ name := by
+        intro heq; subst heq; rw [ht] at hn; cases hn; simp [hnm] at hm'
+      exact other w n tt' w' hn hm' hne hl
+    · rw [h]
+      intro n tt' w' hn hm' hl
+      by_cases hne : n = name
+      · subst hne
+        rw [ht] at hn; cases hn
+        rw [lookup_store_same] at hl; cases hl
+        obtain ⟨s, h1, h2⟩ := hr n tt w' ht hm hl0
+        exact ⟨s, h1, by rw [lookup_store_other _ _ _ _ (shadow_ne n)]; exact h2⟩
+      · exact other w n tt' w' hn hm' hne hl
+    · rw [h]
+      intro n tt' w' hn hm' hl
+      by_cases hne : n = name
+      · subst hne
+        rw [ht] at hn; cases hn
+        rw [lookup_store_other _ _ _ _ (Ne.symm (shadow_ne n)), lookup_store_same] at hl; cases hl
+        exact ⟨s, hmv, lookup_store_same _ _ _⟩
+      · have hne1 : n ≠ name ++ "_" := by
+          intro heq; subst heq
+          rw [hs name tt ht hm] at hn; cases hn
+        have hne2 : n ++ "_" ≠ name ++ "_" := fun heq => hne (shadow_inj _ _ heq)
+        rw [lookup_store_other _ _ _ _ hne1] at hl
+        obtain ⟨s', h1, h2⟩ := other w n tt' w' hn hm' hne hl
+        exact ⟨s', h1, by rw [lookup_store_other _ _ _ _ hne2]; exact h2⟩
+    · obtain ⟨s, hs'⟩ := mapped_some E tt v w hm (hw name tt ht) hv
+      rw [hs'] at hmv; cases hmv
+
+theorem shadow_run (cls : ClassDef) (hw : ClassWF cls) (hs : NoShadowClash cls)
+    (ops : List (String × Val)) (hd : ∀ op ∈ ops, (traitOf cls op.1).isSome = true)
+    (st : State) (hr : ShadowOK cls st) : ShadowOK cls (run E cls st ops) := by
+  induction ops generalizing st with
+  | nil => simpa [run] using hr
+  | cons op ops ih =>
+    simp only [run]
+    exact ih (fun o ho => hd o (by simp [ho])) _
+      (shadow_step E cls hw hs st op.1 op.2 (hd op (by simp)) hr)
+
 end TraitsVerif.Model.Val.Assign
